@@ -1,1 +1,226 @@
-//! (reserved for hooks of this area; cargo feature `verif_hooks`)
+//! Tokenizer-area hooks (cargo feature `verif_hooks`): read-only text views of `crate::tok`.
+#![allow(dead_code, missing_docs)]
+
+use crate::tok::{ErrorCode, Tok, Tokenizer};
+use crate::verif_hooks::hex;
+
+fn kind(t: &Tok<'_>) -> (&'static str, Option<String>) {
+    use Tok::*;
+    let s = |x: &str| Some(x.to_string());
+    match t {
+        Enum => ("Enum", None),
+        Extern => ("Extern", None),
+        Grammar => ("Grammar", None),
+        Match => ("Match", None),
+        Else => ("Else", None),
+        If => ("If", None),
+        Mut => ("Mut", None),
+        Pub => ("Pub", None),
+        In => ("In", None),
+        Type => ("Type", None),
+        Where => ("Where", None),
+        For => ("For", None),
+        Dyn => ("Dyn", None),
+        Use(x) => ("Use", s(x)),
+        Escape(x) => ("Escape", s(x)),
+        Id(x) => ("Id", s(x)),
+        MacroId(x) => ("MacroId", s(x)),
+        Lifetime(x) => ("Lifetime", s(x)),
+        StringLiteral(x) => ("StringLiteral", s(x)),
+        CharLiteral(x) => ("CharLiteral", s(x)),
+        RegexLiteral(x) => ("RegexLiteral", s(x)),
+        Ampersand => ("Ampersand", None),
+        BangEquals => ("BangEquals", None),
+        BangTilde => ("BangTilde", None),
+        Colon => ("Colon", None),
+        ColonColon => ("ColonColon", None),
+        Comma => ("Comma", None),
+        DotDot => ("DotDot", None),
+        Equals => ("Equals", None),
+        EqualsEquals => ("EqualsEquals", None),
+        EqualsGreaterThanCode(x) => ("EqualsGreaterThanCode", s(x)),
+        EqualsGreaterThanQuestionCode(x) => ("EqualsGreaterThanQuestionCode", s(x)),
+        EqualsGreaterThanLookahead => ("EqualsGreaterThanLookahead", None),
+        EqualsGreaterThanLookbehind => ("EqualsGreaterThanLookbehind", None),
+        Hash => ("Hash", None),
+        GreaterThan => ("GreaterThan", None),
+        LeftBrace => ("LeftBrace", None),
+        LeftBracket => ("LeftBracket", None),
+        LeftParen => ("LeftParen", None),
+        LessThan => ("LessThan", None),
+        Lookahead => ("Lookahead", None),
+        Lookbehind => ("Lookbehind", None),
+        MinusGreaterThan => ("MinusGreaterThan", None),
+        Plus => ("Plus", None),
+        Question => ("Question", None),
+        RightBrace => ("RightBrace", None),
+        RightBracket => ("RightBracket", None),
+        RightParen => ("RightParen", None),
+        Semi => ("Semi", None),
+        Star => ("Star", None),
+        TildeTilde => ("TildeTilde", None),
+        Underscore => ("Underscore", None),
+        Bang => ("Bang", None),
+        ShebangAttribute(x) => ("ShebangAttribute", s(x)),
+        StartGrammar => ("StartGrammar", None),
+        StartPattern => ("StartPattern", None),
+        StartMatchMapping => ("StartMatchMapping", None),
+        StartGrammarWhereClauses => ("StartGrammarWhereClauses", None),
+        StartTypeRef => ("StartTypeRef", None),
+    }
+}
+
+fn code_name(c: ErrorCode) -> &'static str {
+    match c {
+        ErrorCode::UnrecognizedToken => "UnrecognizedToken",
+        ErrorCode::UnterminatedEscape => "UnterminatedEscape",
+        ErrorCode::UnterminatedAsciiEscape => "UnterminatedAsciiEscape",
+        ErrorCode::UnrecognizedEscape => "UnrecognizedEscape",
+        ErrorCode::UnterminatedStringLiteral => "UnterminatedStringLiteral",
+        ErrorCode::UnterminatedCharacterLiteral => "UnterminatedCharacterLiteral",
+        ErrorCode::UnterminatedAttribute => "UnterminatedAttribute",
+        ErrorCode::UnterminatedCode => "UnterminatedCode",
+        ErrorCode::ExpectedStringLiteral => "ExpectedStringLiteral",
+        ErrorCode::UnterminatedBlockComment => "UnterminatedBlockComment",
+    }
+}
+
+/// `Tokenizer::new(text, shift)` driven until `None` or the first error (what the grammar parser
+/// consumes). One entry per token, separated by spaces: `start:end:Kind[:x<hex text>]`, an error
+/// is `E:location:Code`; a panic inside the tokenizer is reported as a final `P` entry.
+pub fn tokenize(text: &str, shift: usize) -> String {
+    let run = std::panic::catch_unwind(|| {
+        let mut out: Vec<String> = Vec::new();
+        for item in Tokenizer::new(text, shift) {
+            match item {
+                Ok((l, t, r)) => {
+                    let (k, payload) = kind(&t);
+                    match payload {
+                        Some(p) => out.push(format!("{l}:{r}:{k}:{}", hex(&p))),
+                        None => out.push(format!("{l}:{r}:{k}")),
+                    }
+                }
+                Err(e) => {
+                    out.push(format!("E:{}:{}", e.location, code_name(e.code)));
+                    break;
+                }
+            }
+        }
+        out
+    });
+    match run {
+        Ok(out) => out.join(" "),
+        Err(_) => "P".to_string(),
+    }
+}
+
+fn ranges(pred: impl Fn(char) -> bool) -> String {
+    let mut out: Vec<String> = Vec::new();
+    let mut start: Option<u32> = None;
+    let mut prev = 0u32;
+    for cp in 0..=0x10FFFFu32 {
+        let Some(c) = char::from_u32(cp) else { continue };
+        if pred(c) {
+            match start {
+                Some(_) if prev + 1 == cp => {}
+                Some(s) => {
+                    out.push(format!("{s:x}-{prev:x}"));
+                    start = Some(cp);
+                }
+                None => start = Some(cp),
+            }
+            prev = cp;
+        }
+    }
+    if let Some(s) = start {
+        out.push(format!("{s:x}-{prev:x}"));
+    }
+    out.join(",")
+}
+
+/// The character classes the tokenizer distinguishes, observed through `Tokenizer` itself and
+/// printed as maximal ranges of code points (hex): `start` = a lone `c` lexes as one identifier-ish
+/// token, `continue` = `a` followed by `c` lexes as one token spanning both, `white` = a lone `c`
+/// produces no token and no error.
+pub fn char_classes(which: &str) -> String {
+    let one_tok = |s: &str| -> Option<(usize, usize)> {
+        let mut it = Tokenizer::new(s, 0);
+        match (it.next(), it.next()) {
+            (Some(Ok((l, Tok::Id(_) | Tok::Underscore | Tok::MacroId(_), r))), None) => Some((l, r)),
+            _ => None,
+        }
+    };
+    match which {
+        "start" => ranges(|c| {
+            // `r` alone is an identifier as well; keywords never have one letter
+            one_tok(&c.to_string()) == Some((0, c.len_utf8()))
+        }),
+        "continue" => ranges(|c| {
+            let s = format!("a{c}");
+            one_tok(&s) == Some((0, s.len()))
+        }),
+        "white" => ranges(|c| Tokenizer::new(&c.to_string(), 0).next().is_none()),
+        _ => "bad-class".to_string(),
+    }
+}
+
+// ------------------------------------------------------------------------------------------------
+// RustWrite (crate::rust): the writer behind `rust!`, driven by a list of emission events.
+
+/// Runs the real `RustWrite` under the given flags over `events`, one per line:
+/// `L x<hex>` = `rust!(w, "{}", text)`; `C x<hex>` = the same inside `if …emit_comments { }`;
+/// `R i:x<hex>,…` (or `R -`) = `w.write_table_row([(i, comment), …])`.
+/// Returns `x<hex of everything written>`, or `panic` if the writer panicked.
+pub fn rust_write_events(emit_comments: bool, emit_whitespace: bool, events: &str) -> String {
+    use crate::rust::RustWrite;
+    use crate::tls::Tls;
+    let mut session = crate::verif_hooks::quiet_session(None);
+    session.emit_comments = emit_comments;
+    session.emit_whitespace = emit_whitespace;
+    let (_session, _tls) = crate::verif_hooks::install(session, "");
+    fn unhex(s: &str) -> String {
+        let h = s.strip_prefix('x').unwrap_or("");
+        let bytes: Vec<u8> = (0..h.len() / 2)
+            .map(|i| u8::from_str_radix(&h[2 * i..2 * i + 2], 16).unwrap_or(b'?'))
+            .collect();
+        String::from_utf8_lossy(&bytes).into_owned()
+    }
+    let events = events.to_string();
+    let run = std::panic::catch_unwind(move || -> std::io::Result<Vec<u8>> {
+        let mut w = RustWrite::new(Vec::new());
+        for ev in events.lines() {
+            let (kind, arg) = ev.split_at(1);
+            let arg = arg.trim();
+            match kind {
+                "L" => {
+                    rust!(w, "{}", unhex(arg));
+                }
+                "C" => {
+                    if Tls::session().emit_comments {
+                        rust!(w, "{}", unhex(arg));
+                    }
+                }
+                "R" => {
+                    let entries: Vec<(i32, String)> = if arg == "-" {
+                        vec![]
+                    } else {
+                        arg.split(',')
+                            .map(|e| {
+                                let (i, c) = e.split_once(':').unwrap_or((e, "x"));
+                                (i.parse().unwrap_or(0), unhex(c))
+                            })
+                            .collect()
+                    };
+                    w.write_table_row(entries)?;
+                }
+                _ => {}
+            }
+        }
+        Ok(w.into_inner())
+    });
+    match run {
+        Ok(Ok(bytes)) => hex(&String::from_utf8_lossy(&bytes)),
+        Ok(Err(e)) => format!("io-error {e}"),
+        Err(_) => "panic".to_string(),
+    }
+}
